@@ -155,6 +155,7 @@ type rewriter struct {
 	isVal   bool
 	changed bool
 	nIter   int
+	comm    map[ast.Node]bool
 }
 
 func rtSel(name string) *ast.SelectorExpr {
@@ -179,12 +180,90 @@ func (r *rewriter) run() {
 				if ne := r.rewriteCall(n, info); ne != nil {
 					c.Replace(ne)
 					r.changed = true
+				} else if id, ok := n.Fun.(*ast.Ident); ok && id.Name == "close" && len(n.Args) == 1 {
+					if _, isBuiltin := info.Uses[id].(*types.Builtin); isBuiltin {
+						sid := newSite("chan", r.pkg.PkgPath, n.Pos(), "close")
+						c.Replace(&ast.CallExpr{Fun: rtSel("Close"), Args: []ast.Expr{n.Args[0], intLit(sid)}})
+						r.changed = true
+					}
 				}
+			}
+		case *ast.UnaryExpr:
+			if r.isVal && n.Op == token.ARROW {
+				if _, inSelect := c.Parent().(*ast.CommClause); inSelect {
+					return true
+				}
+				if es, ok := c.Parent().(*ast.ExprStmt); ok {
+					_ = es
+				}
+				if as, ok := c.Parent().(*ast.AssignStmt); ok && len(as.Lhs) == 2 && len(as.Rhs) == 1 {
+					if r.inCommClause(as) {
+						return true
+					}
+					sid := newSite("chan", r.pkg.PkgPath, n.Pos(), "recv,ok")
+					c.Replace(&ast.CallExpr{Fun: rtSel("RecvOK"), Args: []ast.Expr{n.X, intLit(sid)}})
+					r.changed = true
+					return true
+				}
+				if r.inCommClauseExpr(n) {
+					return true
+				}
+				sid := newSite("chan", r.pkg.PkgPath, n.Pos(), "recv")
+				c.Replace(&ast.CallExpr{Fun: rtSel("Recv"), Args: []ast.Expr{n.X, intLit(sid)}})
+				r.changed = true
+			}
+		case *ast.SendStmt:
+			if r.isVal {
+				if _, inSelect := c.Parent().(*ast.CommClause); inSelect {
+					return true
+				}
+				sid := newSite("chan", r.pkg.PkgPath, n.Pos(), "send")
+				c.Replace(&ast.ExprStmt{X: &ast.CallExpr{Fun: rtSel("Send"), Args: []ast.Expr{n.Chan, n.Value, intLit(sid)}}})
+				r.changed = true
+			}
+		case *ast.SelectStmt:
+			if r.isVal {
+				hasDefault := false
+				for _, cl := range n.Body.List {
+					if cc, ok := cl.(*ast.CommClause); ok && cc.Comm == nil {
+						hasDefault = true
+					}
+				}
+				if !hasDefault {
+					fatalf("%s: blocking select in package validate is not modelled: extend the instrumenter", fset.Position(n.Pos()))
+				}
+			}
+		case *ast.GoStmt:
+			if r.isVal {
+				fatalf("%s: package validate starts a goroutine: not modelled by the baton scheduler: extend the instrumenter", fset.Position(n.Pos()))
 			}
 		}
 		return true
 	})
 }
+
+// comm clauses of a select: their channel operations are left alone (only non-blocking selects are accepted)
+func (r *rewriter) commStmts() map[ast.Node]bool {
+	if r.comm != nil {
+		return r.comm
+	}
+	r.comm = map[ast.Node]bool{}
+	ast.Inspect(r.file, func(n ast.Node) bool {
+		if cc, ok := n.(*ast.CommClause); ok && cc.Comm != nil {
+			ast.Inspect(cc.Comm, func(m ast.Node) bool {
+				if m != nil {
+					r.comm[m] = true
+				}
+				return true
+			})
+		}
+		return true
+	})
+	return r.comm
+}
+
+func (r *rewriter) inCommClause(n ast.Node) bool     { return r.commStmts()[n] }
+func (r *rewriter) inCommClauseExpr(n ast.Node) bool { return r.commStmts()[n] }
 
 func isBlank(e ast.Expr) bool {
 	id, ok := e.(*ast.Ident)
@@ -199,6 +278,10 @@ func (r *rewriter) rewriteRange(n *ast.RangeStmt, info *types.Info) ast.Stmt {
 	under := tv.Type.Underlying()
 	if tp, ok := under.(*types.TypeParam); ok {
 		_ = tp
+		return nil
+	}
+	if _, isChan := under.(*types.Chan); isChan && r.isVal {
+		fatalf("%s: range over a channel in package validate is not modelled: extend the instrumenter", fset.Position(n.Pos()))
 		return nil
 	}
 	if _, isMap := under.(*types.Map); !isMap {
